@@ -23,6 +23,12 @@ Modes (Gen(seed, mode)):
             table '| a   | b   |' padded to column width (>= 3) with separator '| --- | :-: | --: |';
             HTML block verbatim; link definitions '[label]: dest "title"' one per line; inline
             links '[text](dest "title")' without padding blanks; code spans on one line.
+            Not normal form (found by running the renderer, so not generated in this mode): a
+            setext underline indented inside a block quote (mistletoe does not recognise setext
+            headings there), blank-padded hard breaks inside setext heading text (the lines are
+            stripped), an empty list item followed by a blank line, an indented block right
+            after a list (it joins the last item), a block starter at the start of a text line.
+  'reflowfree' like 'reflow' but with the non-canonical spellings of 'free' (no lazy lines).
   'reflow'  C10 documents: prose vocabulary restricted to letter-only words (optionally followed
             by one of , . ; ! ?), so that no word can be mistaken for a block marker at the start
             of a line; paragraphs / setext headings / link definitions with emphasis, code spans,
@@ -318,6 +324,7 @@ def render(doc):
 # --------------------------------------------------------------------------------------------
 class Gen:
     def __init__(self, seed, mode='free', size=None, delicate=None):
+        mode = {'normal_form': 'normal', 'canonical': 'normal'}.get(mode, mode)
         self.r = random.Random('%s:%s' % (mode, seed))
         self.mode = mode
         self.free = mode == 'free'
@@ -803,6 +810,8 @@ def unindent_first(b, spell):
     a = b[1]
     if b[0] in ('p', 'sh'):
         a['ind'] = (0,) + tuple(a.get('ind', (0,))[1:])
+        if b[2] and b[2][0][0] == 't' and b[2][0][1]['s'] in ('---', '***', '-', '*', '_', '+', '==='):
+            b[2][0][1]['s'] = 'a'       # '- ---' would be a thematic break, not a list item
     elif b[0] in ('h', 'fc', 'html', 'q'):
         a['ind'] = 0
         if b[0] == 'fc':
@@ -957,7 +966,8 @@ def fix_item_indents(items):
     """a sibling item must be indented less than the content column of the item before it"""
     for i in range(1, len(items)):
         pa = items[i - 1][1]
-        width = pa.get('ind', 0) + len(pa['leader']) + (pa.get('pad', 1) if items[i - 1][2] else 1)
+        width = pa.get('ind', 0) + len(pa['leader']) + \
+            (pa.get('pad', 1) if items[i - 1][2] and not pa.get('blankfirst') else 1)
         if items[i][1].get('ind', 0) >= width:
             items[i][1]['ind'] = width - 1
 
